@@ -244,7 +244,8 @@ def runCase (m : Mode) (args : List String) : String :=
       match parseSections r ⟨[], [], [], [], []⟩ with
       | none => "bad-op"
       | some P =>
-        match runObserveG m D T A P with
+        -- actbits "P": derive the ACTNUM by the ACTNUM-only pre-pass, as EclipseState does
+        match (if act = "P" then runDeck m D T P else runObserveG m D T A P) with
         | none => "err"
         | some res => showResult res
   | _ => "bad-op"
